@@ -99,7 +99,9 @@ def build_batch(cell, inst):
     ks = nonce_gen(cls, rc, bias, rng, count)
     if ks is None:
       return False
-    sigs = [gen.ecdsa_sig(rng, '%s-%d' % (tag, i), curve, d, k, cls) for i, k in enumerate(ks)]
+    hm = cell.get('hash', 'sha256')
+    sigs = [gen.ecdsa_sig(rng, '%s-%d' % (tag, i), curve, d, k, cls, hashname=(hm if (i == 0 or hm != 'sha512z') else 'sha512'))
+            for i, k in enumerate(ks)]
     desc = {'curvebits': rc.n.bit_length(), 'cls': cls, 'bias': bias, 'uniq': len(sigs), 'known': True,
             'needed': lcg_needed(ct, bias) if cls == 'lcg' else 0, 'curve': curve}
     groups.append((desc, sigs))
@@ -157,8 +159,8 @@ def build_batch(cell, inst):
 
 def run_cell(args):
   cell, inst = args
-  sid = 'C08-%s-%s-b%d-c%d-%s-%s-d%d-i%d' % (cell['cls'], cell['curve'], cell['bias'], cell['count'], cell['partner'], cell['order'],
-                                            cell['dups'], inst)
+  sid = 'C08-%s-%s-b%d-c%d-%s-%s-d%d-i%d%s' % (cell['cls'], cell['curve'], cell['bias'], cell['count'], cell['partner'], cell['order'],
+                                              cell['dups'], inst, '' if cell.get('hash', 'sha256') == 'sha256' else '-' + cell['hash'])
   try:
     shim.install()
     from paranoid_crypto.lib import paranoid  # noqa
@@ -210,6 +212,98 @@ def run_cell(args):
     return sid, None, traceback.format_exc()
 
 
+# ---------------------------------------------------------------- interleavings generated by TLC from SigPipeline.tla
+LAYOUT_CURVE = {'X': 'secp256r1', 'Y': 'secp256r1', 'Z': 'secp256k1', 'V': 'secp256k1'}
+LAYOUT_WEAK = ('X', 'V')
+LAYOUT_BIAS = 200
+_material = None
+
+
+def layout_material():
+  """The signatures of the four issuers (fixed catalogue seed): weak issuers have three nonces below 2^(256 - 200)."""
+  global _material
+  if _material is None:
+    rng = random.Random('SigPipeline material')
+    nc = gen.named_curves()
+    _material = {}
+    for iss, curve in sorted(LAYOUT_CURVE.items()):
+      rc = nc[curve][2]
+      d = rng.randrange(2 ** 250, rc.n)
+      ks = [rng.randrange(1, 2 ** (256 - LAYOUT_BIAS)) if iss in LAYOUT_WEAK else rng.randrange(1, rc.n) for _ in range(3)]
+      _material[iss] = [gen.ecdsa_sig(rng, '%s%d' % (iss, i), curve, d, k, 'msb' if iss in LAYOUT_WEAK else 'healthy') for i, k in enumerate(ks)]
+  return _material
+
+
+def run_layout(args):
+  idx, seq, spec_flagged, name = args
+  sid = 'C08-layout-%s-%s' % (''.join(seq), name)
+  try:
+    shim.install()
+    from paranoid_crypto.lib import paranoid  # noqa
+    from paranoid_crypto.lib import ecdsa_sig_checks as esc
+    mat = layout_material()
+    issuers = sorted(set(seq))
+    cls = 'msb' if name == 'CheckNonceMSB' else 'prefix'
+    groups = [{'curvebits': 256, 'cls': cls if iss in LAYOUT_WEAK else 'healthy', 'bias': LAYOUT_BIAS if iss in LAYOUT_WEAK else 0,
+               'uniq': seq.count(iss), 'known': True, 'needed': 0, 'curve': LAYOUT_CURVE[iss]} for iss in issuers]
+    used = {iss: 0 for iss in issuers}
+    batch = []
+    for iss in seq:
+      src = mat[iss][used[iss]]
+      used[iss] += 1
+      pr = gen.pbmod().ECDSASignature()
+      pr.CopyFrom(src.proto)
+      batch.append((checks.Art('%s-%d' % (src.aid, len(batch)), 'ecdsa', pr, src.cls, **dict(src.meta)), issuers.index(iss) + 1))
+    rec = {'sid': sid, 'ev': 'nonce', 'args': {'check': name, 'groups': groups, 'models': [[] for _ in groups], 'sigs': [{'g': g} for _, g in batch],
+                                                'spec_flagged': list(spec_flagged)},
+           'obs': {}, 'raised': 'none', 'scenario': {'cell': {'cls': 'layout', 'curve': 'secp256r1+secp256k1', 'bias': LAYOUT_BIAS, 'count': len(seq),
+                                                             'partner': 'interleaved', 'order': ''.join(seq), 'dups': 0}, 'instance': 0}}
+    try:
+      chk = getattr(esc, name)()
+      checks.record_call  # (deadline helper lives there)
+      checks._with_deadline(lambda: chk.Check([a.proto for a, _ in batch]))
+      flag, ok = [], []
+      for a, _ in batch:
+        ti = checks.project(a)
+        ent = [e for e in ti['entries'] if e['name'] == name]
+        flag.append(bool(ent and ent[0]['result']))
+        ok.append(ti['dlog'] == 'ok')
+      rec['obs'] = {'flag': flag, 'dlog_ok': ok, 'calls': [-1], 'lcgcalls': [[-1, -1]]}
+    except Exception as e:  # pylint: disable=broad-except
+      rec['raised'] = type(e).__name__
+    return sid, rec, None
+  except Exception:  # pylint: disable=broad-except
+    return sid, None, traceback.format_exc()
+
+
+def layout_jobs(ctx):
+  """TLC enumerates every interleaving (SigPipeline.tla) and the verdict of every position; the seeded confusion must be refuted."""
+  bug = tlc.mc('MC_SigPipeline', 'MC_SigPipeline_bug.cfg', workers=1)
+  if bug.violated != 'ExactlyTheWeak':
+    raise tlc.MachineryError('SigPipeline: storing results by batch position should be refuted by TLC (got %r)' % bug.violated)
+  ctx.notes['design_level_counterexample_sigpipeline'] = 'MC_SigPipeline_bug.cfg: per-curve indexes used as batch positions violate ExactlyTheWeak'
+  quick = tlc.expect_holds('MC_SigPipeline', 'MC_SigPipeline_quick.cfg', workers=1)
+  ctx.note_mc(quick, 'SigPipeline/MC_SigPipeline_quick: every interleaving of X x3 (weak), Y x2, Z x1 (other curve)')
+  full = tlc.expect_holds('MC_SigPipeline', 'MC_SigPipeline_full.cfg', workers=1, heap='4g')
+  ctx.note_mc(full, 'SigPipeline/MC_SigPipeline_full: every interleaving of X x3, Y x2, Z x1, V x3 (two weak issuers on two curves)')
+  def uniq(r):
+    out = {}
+    for l in r.prints.get('LAYOUT', []):
+      out[''.join(l['seq'])] = l
+    return [out[k] for k in sorted(out)]
+  lq, lf = uniq(quick), uniq(full)
+  if len(lq) != 60 or len(lf) != 5040:
+    raise tlc.MachineryError('SigPipeline: expected 60 / 5040 layouts, got %d / %d' % (len(lq), len(lf)))
+  if ctx.quick:
+    lf = ctx.rng.sample(lf, 240)
+  jobs = []
+  for i, l in enumerate(lq + lf):
+    names = ['CheckNonceMSB', 'CheckNonceCommonPrefix'] if (not ctx.quick or i % 4 == 0) else ['CheckNonceMSB']
+    for nm in names:
+      jobs.append((i, list(l['seq']), [bool(x) for x in l['flagged']], nm))
+  return jobs
+
+
 def run(ctx):
   ctx.trust('TLC 1.8', 'pv.gen reference signer (certified by TLC on small curves in C09)', 'pv.checks.project (reference multiplication of the recorded key)',
             'system libgmp through ctypes for the truncated-LCG nonces', 'harness wrapper around hidden_number_problem.HiddenNumberProblem (list lengths only)')
@@ -233,7 +327,12 @@ def run(ctx):
         j[0]['cls'], j[0]['curve'], j[0]['bias'], j[0]['count'], j[0]['partner'], j[0]['order'], j[0]['dups'], j[1]))]
   mpctx = mp.get_context('fork')
   from pv import proc
+  ljobs = layout_jobs(ctx)
+  if ctx.only_sid:
+    ljobs = [j for j in ljobs if ctx.only_sid == 'C08-layout-%s-%s' % (''.join(j[1]), j[3])]
   results = list(proc.imap_unordered(run_cell, jobs, procs=15, chunk=2))
+  results += list(proc.imap_unordered(run_layout, ljobs, procs=15, chunk=12))
+  ctx.notes['interleavings_replayed'] = len(ljobs)
   recs = []
   for sid, rec, err in results:
     if err and err.startswith('skipped'):
